@@ -132,6 +132,9 @@ func (g *gram) newline() {
 	g.i++
 	for k, r := range g.pending {
 		h := g.pendSym[k]
+		if h.noDelim {
+			g.fail("here-document delimited by the end of the input")
+		}
 		if !h.quotedDelim && (strings.Contains(h.body, "${v\n") || strings.Contains(h.body, "a`b\n")) {
 			g.fail("unterminated expansion in the body of a here-document with an unquoted delimiter")
 		}
@@ -190,6 +193,10 @@ func hereParts(s string) ast.Word {
 			flush()
 			w = append(w, wCS(false, simpleCmd("c")))
 			i += 3
+		case strings.HasPrefix(s[i:], "\\\n"):
+			// line continuation inside the body: removed, the literal text is cut there
+			flush()
+			i += 2
 		case strings.HasPrefix(s[i:], `\$`) || strings.HasPrefix(s[i:], "\\`") || strings.HasPrefix(s[i:], `\\`):
 			flush()
 			w = append(w, wBS(s[i+1:i+2]))
